@@ -41,6 +41,7 @@ GROUPS = {
     'debug': dict(crate='minijinja', features=BASE_FEATURES + ',debug'),
     'syntax': dict(crate='minijinja', features=BASE_FEATURES + ',custom_syntax'),
     'serde': dict(crate='minijinja', features=BASE_FEATURES + ',deserialization'),
+    'json': dict(crate='minijinja', features=BASE_FEATURES + ',json'),
     # the dependency minijinja is compiled with cfg(kani) too, so its harness files need the same features
     'autoreload': dict(crate='minijinja-autoreload', features=''),
 }
